@@ -186,11 +186,13 @@ pub fn scan<V: Vary>(
         let dx0 = r0.0.x() - l0.0.x();
         let dx1 = r1.0.x() - l1.0.x();
         use crate::math::float::f32;
-        if f32::abs(dx0) >= f32::abs(dx1) {
-            l0.dv_dt(r0, dx0.recip())
+        let (l, r, dx) = if f32::abs(dx0) >= f32::abs(dx1) {
+            (l0, r0, dx0)
         } else {
-            l1.dv_dt(r1, dx1.recip())
-        }
+            (l1, r1, dx1)
+        };
+        // A degenerate polygon has zero width throughout; avoid 0/0 = NaN
+        l.dv_dt(r, if dx != 0.0 { dx.recip() } else { 0.0 })
     };
 
     // Find the y value of the next pixel center (.5) vertically
